@@ -94,10 +94,17 @@ def _make_body(i, awaits, oc):
 
     def finish(self):
         k = oc[0]
+        if k in ('cont', 'wait'):
+            nxt = getattr(self, f'f{oc[1]}')
+            if self.__dict__.get('_verif_uout') and asyncio.iscoroutinefunction(nxt) and i % 2 == 1:
+                # the next step handed over as a functools.partial of the coroutine method: callable, awaitable, WITHOUT a __name__
+                # (only in runs that are not checkpointed: a saved state names its function)
+                import functools
+                nxt = functools.partial(nxt)
         if k == 'cont':
-            return (RetryCmd if sub else ps.Continue)(getattr(self, f'f{oc[1]}'), *oc[2], **{kw_name(a): b for a, b in oc[3].items()})
+            return (RetryCmd if sub else ps.Continue)(nxt, *oc[2], **{kw_name(a): b for a, b in oc[3].items()})
         if k == 'wait':
-            return (ParkCmd if sub else ps.Wait)(getattr(self, f'f{oc[1]}'))
+            return (ParkCmd if sub else ps.Wait)(nxt)
         if k == 'stop' and self.__dict__.get('_verif_uout'):
             # an output that cannot be copied (a handle holding a lock): outputs are handed on as they are, never cloned
             self.out('handle', Uncopyable())
